@@ -29,7 +29,7 @@ PROPS = {
         level="exploration",
     ),
     "C10": dict(
-        harness="sim/c10", cmd="zzverif_c10", race=True, minimise_mode=True,
+        harness="sim/c10", cmd="zzverif_c10", race=True, minimise_mode=True, crash_is_violation=True,
         rewrite=["-m", M_PKGS, "-y", Y_PKGS,
                  "-every", "lib/j5schema/schema_cache.go,lib/j5schema/schema_set.go,lib/j5reflect/reflect.go,internal/codec/codec.go",
                  "-fieldassign", "lib/j5schema",
@@ -361,6 +361,31 @@ def check(prop, tier):
     os.makedirs(st_dir)
     results, crashed = collect(procs, time.time() + budget * 3 + 600)
     selftest = do_selftest(binary, prop, seed, st_dir, tcfg["selftest_runs"], [a for a in tcfg["args"] if a != "-deep"])
+    crash_viol = []
+    if crashed and cfg.get("crash_is_violation"):
+        # A worker died. The harness writes the run it is about to start to <out>.current; if replaying that
+        # run in a fresh process kills the process again with a Go fatal error or an unrecovered panic, the
+        # code under test crashed the process under that schedule: a violation ("runtime crashes"), not trouble.
+        still = []
+        for w, rc, errname in crashed:
+            marker = os.path.join(outdir, "w%d.json.current" % w)
+            tail = open(errname).read()[-6000:]
+            if len(crash_viol) >= 2:
+                continue  # the same crash in every worker: two replay files are enough
+            if rc != 3 and os.path.exists(marker) and ("fatal error:" in tail or "\npanic: " in tail or tail.startswith("panic: ")):
+                os.makedirs(os.path.join(VERIF, "replays"), exist_ok=True)
+                path = os.path.join(VERIF, "replays", "%s-crash-w%d-seed%d.json" % (prop, w, seed))
+                v = json.load(open(marker))
+                v["violation"]["detail"] = "the worker process died while executing this run:\n" + tail[-3000:]
+                json.dump(v, open(path, "w"), indent=1)
+                env = goenv({"GORACE": "log_path=%s halt_on_error=0 exitcode=0 history_size=4" % os.path.join(outdir, "race.crashreplay")})
+                r = run([binary, "-mode", "replay", "-file", path], env=env, capture_output=True, text=True, cwd=outdir)
+                if r.returncode not in (0, 1) and ("fatal error:" in r.stderr or "panic: " in r.stderr):
+                    first = [l for l in r.stderr.splitlines() if l.startswith("fatal error:") or l.startswith("panic:")][:1]
+                    crash_viol.append(("process_crash", path, v, "REPLAY: the process under test dies again when this run is replayed: %s" % (first[0] if first else "crash")))
+                    continue
+            still.append((w, rc, errname))
+        crashed = still
     if crashed:
         msgs = []
         for w, rc, errname in crashed:
@@ -369,7 +394,7 @@ def check(prop, tier):
         # a crash of the process under test is handled by the harness itself (it records the run before
         # starting it); reaching here means the harness could not report: machinery trouble.
         trouble("workers did not finish cleanly:\n" + "\n".join(msgs))
-    if not results:
+    if not results and not crash_viol:
         trouble("no worker results")
 
     stats = {}
@@ -433,6 +458,7 @@ def check(prop, tier):
         else:
             unreproduced.append((k, path, r.returncode, (r.stdout + r.stderr)[-2000:]))
 
+    new_viol += crash_viol
     coverage = dict(
         evaluations=int(stats.get("executions", 0)),
         distinct_nontrivial=len(sigs),
@@ -509,6 +535,10 @@ def replay(path):
     if r.returncode == 0:
         print("replay: the recorded violation does not occur on the current tree")
         return 0
+    if PROPS[prop].get("crash_is_violation") and ("fatal error:" in r.stderr or "panic: " in r.stderr):
+        print("REPLAY: the process under test died while replaying this run (runtime crash)")
+        print("VIOLATION property=%s replay=%s" % (prop, os.path.abspath(path)))
+        return 1
     trouble("replay could not be followed (exit %d)" % r.returncode)
 
 def selftest(prop):
